@@ -10,6 +10,7 @@ import Gpa.Model.PipelineWire
 import Gpa.Model.Attribution
 import Gpa.Model.Truncate
 import Gpa.Model.Telemetry
+import Gpa.Model.Logs
 
 open Gpa
 
@@ -18,6 +19,13 @@ structure DState where
     Health.StatusState.new Facts.healthErrorThreshold Facts.healthMaxConsecutive
   svc : Health.ServiceState := []
   attr : Attribution.Server := { audit := [], conns := [] }
+  roll : Logs.Rolling := { cur := none, archives := [] }
+  rollCfg : Logs.Settings := { maxSize := 1, maxCount := 1 }
+
+def showRoll (r : Logs.Rolling) : String :=
+  let c := match r.cur with | some v => toString v | none => "-"
+  let a := if r.archives.isEmpty then "-" else ",".intercalate (r.archives.map toString)
+  s!"cur={c} a={a}"
 
 def stepLine (st : DState) (line : String) : DState × String :=
   match line.trimAscii.toString.splitOn " " with
@@ -112,6 +120,26 @@ def stepLine (st : DState) (line : String) : DState × String :=
           let bs := r.batches.map fun b => Hex.encode (Text.utf8 (Telemetry.toXml c b))
           (st, s!"{r.batches.length} {" ".intercalate bs} D {r.dropped.length}")
       | none => (st, "bad-op")
+  | "logs" :: "new" :: ms :: mc :: cur :: archs =>
+      match ms.toNat?, mc.toNat? with
+      | some ms, some mc =>
+          let r : Logs.Rolling := { cur := cur.toNat?, archives := archs.filterMap String.toNat? }
+          ({ st with roll := r, rollCfg := { maxSize := ms, maxCount := mc } }, showRoll r)
+      | _, _ => (st, "bad-op")
+  | ["logs", "write", b] =>
+      match b.toNat? with
+      | some b => let r := Logs.write st.rollCfg st.roll b; ({ st with roll := r }, showRoll r)
+      | none => (st, "bad-op")
+  | ["logs", "ev", cap, n] =>
+      match cap.toNat?, n.toNat? with
+      | some cap, some n => (st, toString (Logs.flushEvents cap n))
+      | _, _ => (st, "bad-op")
+  | "logs" :: "dump" :: mx :: newId :: ids =>
+      match mx.toNat?, newId.toNat? with
+      | some mx, some nid =>
+          let r := Logs.writeDump mx (ids.filterMap String.toNat?) nid
+          (st, if r.isEmpty then "-" else ",".intercalate (r.map toString))
+      | _, _ => (st, "bad-op")
   | "authz" :: toks =>
       match Tok.run (do let ip ← Tok.str; let port ← Tok.nat; let e ← Pipeline.pBool
                         let rules ← Tok.opt Rbac.pItem; let u ← Rbac.pUri; let c ← Rbac.pClaims
